@@ -94,4 +94,11 @@ CHECKS = {
         technique="runtime monitoring: formatter fixed-point oracle with independently built mode + recorder on black.format_str",
         ref="DESIGN.md section 4 C20",
     ),
+    "C18": dict(
+        level="exploration",
+        text="Files composed from 50 parameterised bad-program templates within the documented usage (failing and raising comparisons, exceptions before/after comparisons, nested snapshots with replaced/deleted/only-aligned/empty parents, operator misuse, changing arguments, unequal copies, star-expressions, f-strings, Is) mixed with sites from the C02/C05/C10 generators, asserting style so that tests abort midway, run by the real code under 4 (quick) / all 16 (thorough) approved subsets. Monitors: exception capture around change collection and around apply_all/fix_all, an independent overlap check of every recorded replacement set, and compile() of every rewritten file.",
+        note="Every other in-process check also counts internal errors (crashed counter, inconclusive above 5%); the plugin-level detector (hook-wrapper around pytest_sessionfinish) runs in the real-session checks.",
+        technique="runtime monitoring: exception/overlap monitors at the session-end boundary over adversarial test programs",
+        ref="DESIGN.md section 4 C18",
+    ),
 }
